@@ -203,7 +203,7 @@ func (ms msgServer) CreateValidator(ctx context.Context, msg *poa.MsgCreateValid
 	}
 
 	for _, p := range pending.Validators {
-		if p.OperatorAddress == msg.ValidatorAddress {
+		if ms.k.sameOperator(p.OperatorAddress, msg.ValidatorAddress) {
 			return nil, stakingtypes.ErrValidatorOwnerExists
 		}
 
